@@ -12,17 +12,21 @@ Inductive op :=
 | OReply (k : nat)          (* the server answers k more requests of the current connection *)
 | OClose                    (* the server closes the current connection *)
 | OAdvance (t : N)          (* let time pass until tick t *)
-| OFinish.                  (* the server answers everything from now on, on every connection *)
+| OFinish                   (* the server answers everything from now on, on every connection (and accepts connections again) *)
+| ORefuse                   (* from now on every dial fails (connection refused); the current connection is not touched *)
+| OAccept.                  (* dials succeed again *)
 
 (* environment of the scheduler: what the scripted server will do, and the writer's bufio.Writer:
    [unflushed] are requests written into the buffer and not yet flushed, [armed] says that flushTimerCh is set
    (writer: "if flushTimerCh == nil && (len(chW) == 0 || len(chR) == cap(chR))" after each write, and — since the fix — also before
    going idle with a non-empty buffer; the flush itself happens in the slow paths of the two selects).  The server only receives — and only answers — flushed requests. *)
 Record env := { avail : nat; closed : bool; dirty : bool; auto : bool; delivered : list nat;
-                unflushed : list nat; armed : bool }.
+                unflushed : list nat; armed : bool;
+                refusing : bool; dialfailed : bool }.
 
 Definition env0 : env :=
-  {| avail := 0; closed := false; dirty := false; auto := false; delivered := []; unflushed := []; armed := false |}.
+  {| avail := 0; closed := false; dirty := false; auto := false; delivered := []; unflushed := []; armed := false;
+     refusing := false; dialfailed := false |}.
 
 Definition ids (s : st) : list nat := seq 0 (nitems s).
 
@@ -50,8 +54,13 @@ Definition next_label (s : st) (e : env) : option (label * env) :=
     match md s with
     | Down => match nitems s with
               | O => None
-              | _ => Some (LDial true, {| avail := if auto e then 1000%nat else 0%nat; closed := false; dirty := false;
-                                           auto := auto e; delivered := delivered e; unflushed := []; armed := false |})
+              | _ =>
+                if refusing e then
+                  (if dialfailed e then None       (* the worker keeps retrying; nothing changes *)
+                   else Some (LDial false, {| avail := avail e; closed := closed e; dirty := dirty e; auto := auto e; delivered := delivered e;
+                                               unflushed := unflushed e; armed := armed e; refusing := true; dialfailed := true |}))
+                else Some (LDial true, {| avail := if auto e then 1000%nat else 0%nat; closed := false; dirty := false;
+                                           auto := auto e; delivered := delivered e; unflushed := []; armed := false; refusing := refusing e; dialfailed := dialfailed e |})
               end
     | _ =>
       (* reader *)
@@ -61,7 +70,7 @@ Definition next_label (s : st) (e : env) : option (label * env) :=
           else if negb (mem id (delivered e)) then None          (* the server has not received this request *)
           else match avail e with
                | S k => Some (LRRead true, {| avail := k; closed := closed e; dirty := dirty e; auto := auto e;
-                                               delivered := delivered e; unflushed := unflushed e; armed := armed e |})
+                                               delivered := delivered e; unflushed := unflushed e; armed := armed e; refusing := refusing e; dialfailed := dialfailed e |})
                | O => None
                end
       | RIdle, _ :: _ => Some (LRPop, e)
@@ -72,7 +81,7 @@ Definition next_label (s : st) (e : env) : option (label * env) :=
 
 Definition flush (e : env) : env :=
   {| avail := avail e; closed := closed e; dirty := dirty e; auto := auto e;
-     delivered := if closed e then delivered e else delivered e ++ unflushed e; unflushed := []; armed := false |}.
+     delivered := if closed e then delivered e else delivered e ++ unflushed e; unflushed := []; armed := false; refusing := refusing e; dialfailed := dialfailed e |}.
 
 (* writer and teardown steps, tried when callers and reader are quiescent.  The result label is None for a pure buffer flush. *)
 Definition next_label2 (s : st) (e : env) : option (option label * env) :=
@@ -89,7 +98,7 @@ Definition next_label2 (s : st) (e : env) : option (option label * env) :=
             let arm := armed e || (match rest with [] => true | _ => false end) || full s (chR s) in
             Some (Some (LWPop true),
                   {| avail := avail e; closed := closed e; dirty := closed e; auto := auto e; delivered := delivered e;
-                     unflushed := unflushed e ++ [id]; armed := arm |})
+                     unflushed := unflushed e ++ [id]; armed := arm; refusing := refusing e; dialfailed := dialfailed e |})
       | WIdle, [] =>
           (* againChW slow path: "if flushTimerCh == nil && bw.Buffered() > 0" arms the flush before the select, so unflushed data
              is flushed whether or not a write armed it (before commit 1c25925 only [armed e] flushed here and a request written
@@ -142,12 +151,16 @@ Definition do_op (s : st) (e : env) (o : op) : option (st * env) :=
   match o with
   | OCall dl => match step s (LCall dl) with Some s1 => settle FUEL s1 e | None => None end
   | OReply k => settle FUEL s {| avail := avail e + k; closed := closed e; dirty := dirty e; auto := auto e; delivered := delivered e;
-                                 unflushed := unflushed e; armed := armed e |}
+                                 unflushed := unflushed e; armed := armed e; refusing := refusing e; dialfailed := dialfailed e |}
   | OClose => settle FUEL s {| avail := 0; closed := true; dirty := false; auto := auto e; delivered := delivered e;
-                               unflushed := unflushed e; armed := armed e |}
+                               unflushed := unflushed e; armed := armed e; refusing := refusing e; dialfailed := dialfailed e |}
   | OAdvance t => advance 64 t s e
+  | ORefuse => settle FUEL s {| avail := avail e; closed := closed e; dirty := dirty e; auto := auto e; delivered := delivered e;
+                                unflushed := unflushed e; armed := armed e; refusing := true; dialfailed := false |}
+  | OAccept => settle FUEL s {| avail := avail e; closed := closed e; dirty := dirty e; auto := auto e; delivered := delivered e;
+                                unflushed := unflushed e; armed := armed e; refusing := false; dialfailed := false |}
   | OFinish => settle FUEL s {| avail := if closed e then avail e else 1000%nat; closed := closed e; dirty := dirty e; auto := true;
-                                delivered := delivered e; unflushed := unflushed e; armed := armed e |}
+                                delivered := delivered e; unflushed := unflushed e; armed := armed e; refusing := false; dialfailed := false |}
   end.
 
 (* run a scenario; collect |chW| + |chR| (= PendingRequests()) after every operation *)
